@@ -32,16 +32,22 @@ RULE = ('References are generated structurally as [stage<N>.]head[/path]:method,
         '(empty; two disjoint rotations; same name in two stages) x 4 manifests (empty; top-level + nested keys a/b, '
         'c/d/e; top-level a + nested mf/sub; keys x and A-B/sub that are component names elsewhere) x 2 '
         'application-dependency lists [3 thorough] x owner stage 0/1 [+10 thorough], minus contexts where a known '
-        'component shares a name with a folder (documented as unsupported). Layer str: every reference; layer fn: '
-        'every (reference, context); layer doc: every context x every head x prefix x 3 paths x 2 methods (quick) / '
-        'all paths x all methods (thorough), one consumer component per reference. A case is non-trivial when the '
+        'component shares a name with a folder (documented as unsupported). Layer str: every reference (context-free '
+        'round trips, DataReference/ComponentIdentifier relative vs absolute); layer fn: every (reference, context) '
+        'through the 5 classification/expansion functions; layer manifest: Manifest.top_level_folders of every context; '
+        'layer doc: per (context, owner stage) FlowIR documents with one consumer component per reference, paths '
+        '{none, b/f.txt, sub/f.txt} x methods {ref, copy} (quick) / 5 paths x all 8 methods (thorough), variable heads '
+        'left out, references the statement does not classify kept only without path. A case is non-trivial when the '
         'statement fixes its class (component / not-a-component) or it has a stage prefix or a path; distinct = '
-        'distinct (layer, reference string, context id).')
+        'distinct (layer, reference string, context id, owner stage). Failing cases that differ from an already recorded '
+        'failure only in path/method/owner stage (same layer, context, head, prefix, signature) are counted in '
+        'failing_cases but not recorded individually.')
 ASSUMPTIONS = [
     'only canonical spellings are generated (no empty path segments, no trailing "/", no leading zeros in stage '
     'numbers, exactly one ":"); other spellings are outside the property',
     'explicit stage prefixes are only combined with component-like names; "stage0.data:ref", "stage0.%(v)s:ref", '
-    '"stage0./abs:ref" are not judged',
+    '"stage0./abs:ref" are not generated, and a prefixed name that is a folder of the context ("stage0.x:ref" where the '
+    'manifest has a key x) is skipped (counter excluded_stage_prefix_on_folder_name)',
     'a context in which a known component has the same name as a reserved / application-dependency / manifest folder is '
     'skipped (the code documents this as unsupported)',
     'references whose producer is neither a folder of the context nor a known component ("open") are judged for '
